@@ -67,12 +67,13 @@ def run(tier, seed):
             nsh = common.NPROC * mult
             descs = [{'prop': PROP, 'kind': 'weighted', 'name': '%s%d' % (variant[0], s), 'variant': variant, 'binary': binary,
                       'nseq': max(1, int(nseq * frac) // nsh),
+                      'lopsided': ([[(1100, 1)], [(4500, 2)], [(9000, 1)], [(70000, 1)]][s] if (s < 4 and variant == 'release') else []),
                       'seed': seed * 1000003 + s * 7919 + sum(map(ord, variant))} for s in range(nsh)]
             total.merge(common.run_shards(pairprop.shard, descs))
             total.merge(enum_zero(binary, variant))
     except common.Inconclusive as e:
         total.inconclusive.append(str(e))
-    need = {'nontrivial_states': 1000, 'states_with_zero_weight': 1000, 'merge_histories': 500, 'all_zero_weight_chunks': 20,
+    need = {'lopsided_histories': 8, 'nontrivial_states': 1000, 'states_with_zero_weight': 1000, 'merge_histories': 500, 'all_zero_weight_chunks': 20,
             'enumerated_zero_patterns': 100, 'nontrivial_merge_nodes': 500}
     return common.finish(PROP, tier, seed, total, RULE, t0, ASSUME, min_events=need,
                          extra={'builds': [v for v, _ in variants]})
